@@ -788,6 +788,9 @@ class EncodingParser(object):
             if endTag:
                 data.previous()
                 self.handleOther()
+            else:
+                # leave the byte after the "<" to be looked at again
+                data.previous()
             return True
 
         c = data.skipUntil(spacesAngleBrackets)
